@@ -37,6 +37,16 @@ def vector_sets(n, field, kind, rank, tag):
         A = A + 1j * rng.integers(-3, 4, (n, rank))
     while np.linalg.matrix_rank(A) < rank:
         A = A + np.eye(n)[:, :rank]
+    if kind == "raw":  # L = R not normalised: 1 - R R† is not a projector, but still the operator the object denotes
+        return A / 2, None
+    if kind == "generic":  # unrelated R and L (L† R != 1)
+        Z = rng.integers(-2, 3, (n, rank)).astype(float)
+        if field in ("complex", "real-complexL"):
+            Z = Z + 1j * rng.integers(-2, 3, (n, rank))
+        R_ = A.real if field == "real-complexL" else A
+        if field == "complex-realL":
+            Z = Z.real
+        return R_ / 2, Z / 2 + np.eye(n)[:, :rank]
     if kind == "orth":
         R, _ = np.linalg.qr(A)
         return R, None
@@ -68,7 +78,7 @@ def vector_sets(n, field, kind, rank, tag):
     return R, L
 
 
-TEMPLATES = ["bare", "lo@x", "x@lo", "x@lo@x", "x+lo", "c*x", "x+xH", "sp@x", "x@sp"]
+TEMPLATES = ["bare", "lo@x", "x@lo", "x@lo@x", "x+lo", "c*x", "x+xH", "sp@x", "x@sp", "x@x", "x@x@lo", "x@xH", "x.dot(x)", "x**2"]
 OUTER = ["", "T", "H"]
 
 
@@ -77,8 +87,8 @@ def cases(tier, seed):
     out = []
     for n in ns:
         for field in ("real", "complex", "real-complexL", "complex-realL"):
-            for kind in ("orth", "orth_same", "biorth"):
-                if field in ("real-complexL", "complex-realL") and kind != "biorth":
+            for kind in ("orth", "orth_same", "biorth", "raw", "generic"):
+                if field in ("real-complexL", "complex-realL") and kind not in ("biorth", "generic"):
                     continue
                 for rank in ((1, 2) if tier == "quick" else (1, 2, 3)):
                     chains = [()] + [(a,) for a in UNARY] + list(itertools.product(UNARY, repeat=2))
@@ -149,6 +159,16 @@ def run_case(case):
             op, D = aslinearoperator(Asp) @ op, Asp.toarray() @ D
         elif t == "x@sp":
             op, D = op @ aslinearoperator(Asp), D @ Asp.toarray()
+        elif t == "x@x":
+            op, D = op @ op, D @ D
+        elif t == "x@x@lo":
+            op, D = op @ op @ lo, D @ D @ A
+        elif t == "x@xH":
+            op, D = op @ op.H, D @ D.conj().T
+        elif t == "x.dot(x)":
+            op, D = op.dot(op), D @ D
+        elif t == "x**2":
+            op, D = op**2, D @ D
         if case["outer"]:
             op = UNARY[case["outer"]][0](op)
             D = UNARY[case["outer"]][1](D)
@@ -192,7 +212,10 @@ def run_case(case):
             cmp("P @ csr @ V", op @ Asp @ xs["mat"], D @ Asp.toarray() @ xs["mat"])
             cmp("V† @ csr @ P", xs["mat"].conj().T @ Asp @ op, xs["mat"].conj().T @ Asp.toarray() @ D)
             # idempotency when L† R = 1
-            cmp("P @ (P @ x)", op @ (op @ xs["mat"]), D @ xs["mat"])
+            if case["kind"] in ("orth", "orth_same", "biorth"):
+                cmp("P @ (P @ x)", op @ (op @ xs["mat"]), D @ xs["mat"])
+            else:
+                cmp("P @ (P @ x)", op @ (op @ xs["mat"]), D @ D @ xs["mat"])
             # double application of an involution gives the same operator back
             for u in ("T", "H", "C"):
                 twice = UNARY[u][0](UNARY[u][0](op))
